@@ -118,6 +118,12 @@ pub fn main() {
       let id = &args[2];
       let known = crate::report::Known::load(id);
       let mut out = std::collections::BTreeSet::new();
+      // cases already listed stay listed unless `--prune` is given (a dump of one tier alone must not drop the other tier's cases)
+      if !args.iter().any(|a| a == "--prune") {
+        if let Ok(s) = std::fs::read_to_string(format!("{}/known/{}.cases", crate::report::verif_dir(), id)) {
+          for l in s.lines() { let k = l.split('\t').next().unwrap_or(""); if known.entries.iter().any(|e| e.key == k && e.status == "known") { out.insert(l.to_string()); } }
+        }
+      }
       for tier in ["quick", "thorough"] {
         if let Ok(s) = std::fs::read_to_string(format!("{}/target/findings/{}.{}.tsv", crate::report::verif_dir(), id, tier)) {
           for l in s.lines() {
